@@ -114,7 +114,7 @@ def run(chk, only=None):
     impl = pv.run_impl(reqs, shards=pv.NCPU)
     bad = []
     dist = {"programs": len(progs), "sites": 0, "declared_sites": 0, "undeclared_sites": 0, "ambiguity_nodes_mode_None": 0, "forms": {}}
-    BIN = {"cast-": "SubstractExpression", "cast+": "AddExpression", "cast*": "MultiplyExpression", "cast&": "BitwiseANDExpression"}
+    BIN = {"cast-": "SubstractExpression", "cast+": "AddExpression", "cast*": "MultiplyExpression", "cast&": "BitwiseANDExpression", "cast&&": "LogicalANDExpression"}
     for (p, dm), a in zip(meta, impl):
         sa = sexp.split_answer(a) if a.startswith("OK") else None
         if sa is None:
